@@ -19,6 +19,9 @@ def run(prog, rep):
     rep.attempt(lambda: M.unused_size_zero(ct, rep))
     rep.attempt(lambda: M.offset_provenance(ct, rep))
     rep.attempt(lambda: M.repoint_later(ct, rep))
+    # the offsets computed above describe the FILE only if every table change is also written to its slot
+    rep.attempt(lambda: M.dirty_entry(ct, rep, rule="table-pairing"))
+    rep.attempt(lambda: M.slot_position(ct, rep, rule="table-pairing/slot"))
     rep.not_decided += ["the global non-overlap invariant over concrete histories and sizes",
                         "foreign files that are already inconsistent"]
     rep.trusted += ["file objects: seek/write/truncate semantics of CPython binary files"]
